@@ -5,7 +5,8 @@
   * `uri_sound` / `uri_complete`        — ValidateEndSessionPostLogoutRedirectURI = "registered exactly or via an opted-in glob"
   * `hint_sound`                        — a hint the verifier lets through (valid or expired) is validly signed (C02) by the own issuer
   * `validate_eq_ref`                   — bridge: ValidateEndSessionRequest is the three-step reference function
-  * `c18_redirect_partial` (+ witness)  — a redirecting answer of either router satisfies the monitor (all clauses)
+  * `c18_redirect_sound`                — a redirecting answer of either router satisfies the monitor (all clauses), for every
+                                          URL parser: the target's own query text is kept as it is (`c18_query_kept`)
   * `c18_rejected`                      — a rejecting answer satisfies the monitor (valid logout requests are not rejected)
   * `c18_time_independent`              — the decision does not depend on the clock: an expired hint is as good as a fresh one
   * `c18_state_intact`                  — the appended state decodes unchanged (uses Proofs/Query.lean)
@@ -400,10 +401,26 @@ theorem target_sound {cfg : Cfg} {e : SessionEnder} {now : Int} {o : SessOracles
     refine ⟨by rw [← h.1, this], ?_⟩
     rw [← h.2, hc.dflt]; simp [allowedTargets]
 
+/-- the encoded `state` setting that is appended: `state=` and the query-escaped value -/
+def stateSetting (st : String) : String := ofAscii (Query.encodePair (toBytes "state", toBytes st))
+
+theorem encodeParams_state (st : String) : encodeParams [("state", [st])] = stateSetting st := by
+  simp [encodeParams, stateSetting, flatten, addParam, insertSorted, pairBytes, Query.encode]
+
+/-- the target `u` after `mergeQueryParams(u, {state})`, as a user agent reads the rendered string back (net/url as
+    oracle for the split into parts): the query text is `u`'s own followed by the `state` setting, which decodes to
+    one more `state` value (`c18_state_intact`); nothing else changes -/
+def withState (u : SessURL) (st : String) : SessURL :=
+  { u with rawQuery := joinQuery u.rawQuery (stateSetting st), query := addParam u.query "state" st }
+
+theorem sessMerge_state (now : Int) (u : SessURL) (st : String) :
+    sessMergeQueryParams now u [("state", [st])] = (withState u st).render := by
+  simp [sessMergeQueryParams, encodeParams_state, withState, SessURL.render]
+
 theorem state_sound {now : Int} {o : SessOracles} {r : EndSessionReq} {target loc : String}
     (h : refState now o r target = .ok loc) :
     (r.State = "" ∧ loc = target) ∨
-    (r.State ≠ "" ∧ ∃ u, o.urlParse target = .ok u ∧ loc = renderURL u (addParam u.query "state" r.State)) := by
+    (r.State ≠ "" ∧ ∃ u, o.urlParse target = .ok u ∧ loc = (withState u r.State).render) := by
   unfold refState at h
   split at h
   · rename_i hs
@@ -412,8 +429,7 @@ theorem state_sound {now : Int} {o : SessOracles} {r : EndSessionReq} {target lo
     · rename_i u hu
       simp only [Except.ok.injEq] at h
       right
-      refine ⟨by simpa using hs, u, hu, ?_⟩
-      rw [← h]; simp [sessMergeQueryParams, flatten]
+      exact ⟨by simpa using hs, u, hu, by rw [← h, sessMerge_state]⟩
   · rename_i hs
     simp only [Except.ok.injEq] at h
     left; exact ⟨by simpa using hs, h.symm⟩
@@ -444,34 +460,33 @@ theorem handle_eq (rt : Sess.Router) (now : Int) (o : SessOracles) (rq : Go.R En
         simp only [hcan, ht, if_true, if_false, Bool.false_eq_true] <;>
         first | rfl | decide | (simp only [Hand.sessDefaultToServerError]; decide)
 
-/-- `loc` is the canonical rendering of the SessURL `dec` a user agent is taken to decode from it
-    (that the rendered query decodes back to `d.query` is `Query.parse_encode`) -/
-def Rendered (loc : String) (dec : Go.R SessURL) : Prop := ∃ d, dec = .ok d ∧ loc = renderURL d d.query
+/-- `loc` is the rendering (`URL.String()`) of the SessURL `dec` a user agent is taken to decode from it
+    (that the appended setting decodes to the `state` value and leaves the rest of the query alone is `c18_state_intact`) -/
+def Rendered (loc : String) (dec : Go.R SessURL) : Prop := ∃ d, dec = .ok d ∧ loc = d.render
 
 /-- what a user agent decodes from the model's redirect to `target` + state -/
 def decodeOf (o : SessOracles) (target state : String) : Go.R SessURL :=
   match o.urlParse target with
-  | .ok u => .ok { u with query := addParam u.query "state" state, lossy := false }
+  | .ok u => .ok (withState u state)
   | .error err => .error err
 
 theorem verdict_exact {o : SessOracles} {r : EndSessionReq} {now : Int} {target loc : String}
-    (hloss : ∀ t u, o.urlParse t = .ok u → u.lossy = false) (h : refState now o r target = .ok loc) :
+    (h : refState now o r target = .ok loc) :
     targetVerdict (orcOf o) r.State loc (decodeOf o target r.State) target = .exact ∧
       (r.State ≠ "" → Rendered loc (decodeOf o target r.State)) := by
   rcases state_sound h with ⟨hs, hl⟩ | ⟨hs, u, hu, hl⟩
   · subst hl
     exact ⟨by simp [targetVerdict, hs], fun hne => absurd hs hne⟩
   · have hs' : (r.State == "") = false := by simpa using hs
-    refine ⟨?_, fun _ => ⟨_, by simp only [decodeOf, hu]; rfl, ?_⟩⟩
-    · simp only [targetVerdict, hs', Bool.false_eq_true, if_false, orcOf, hu, decodeOf, hloss _ _ hu,
-        queryPlusState_addParam, beq_self_eq_true, Bool.and_self, Bool.not_false, if_true]
-    · rw [hl]; rfl
+    refine ⟨?_, fun _ => ⟨_, by simp only [decodeOf, hu], hl⟩⟩
+    simp only [targetVerdict, hs', Bool.false_eq_true, if_false, orcOf, hu, decodeOf, withState,
+      queryPlusState_addParam, beq_self_eq_true, Bool.and_self, if_true]
 
 /-- SOUNDNESS, every clause of the monitor at once: whatever `ValidateEndSessionRequest` accepts, sending the
-    user to the session's URI after terminating the session's (user, client) satisfies the monitor.
-    Partial: under the hypothesis that the SessURL parser drops no query pairs (see `c18_lossy_witness`). -/
+    user to the session's URI after terminating the session's (user, client) satisfies the monitor — for every
+    URL parser, also for targets whose own query it does not fully accept. -/
 theorem validate_monitor {cfg : Cfg} {e : SessionEnder} {now : Int} {o : SessOracles} {r : EndSessionReq} {s : EndSessionRequest}
-    (hc : Configured cfg e) (hloss : ∀ t u, o.urlParse t = .ok u → u.lossy = false)
+    (hc : Configured cfg e)
     (h : ValidateEndSessionRequest now o r e = .ok s) :
     ∃ dec, (r.State ≠ "" → Rendered s.RedirectURI dec) ∧
       monitor cfg (orcOf o) (reqOf o r) (.redirect s.RedirectURI dec [(s.UserID, s.ClientID)]) = none := by
@@ -490,7 +505,7 @@ theorem validate_monitor {cfg : Cfg} {e : SessionEnder} {now : Int} {o : SessOra
   subst h
   obtain ⟨hdef, hcontra, huid, hcid⟩ := identify_sound hc hI
   obtain ⟨hscid, hmem⟩ := target_sound hc hT
-  obtain ⟨hexact, hrend⟩ := verdict_exact hloss hS
+  obtain ⟨hexact, hrend⟩ := verdict_exact hS
   refine ⟨decodeOf o target r.State, hrend, ?_⟩
   have hmal : (reqOf o r).malformed = false := rfl
   have hcon : contradicts (proven cfg (reqOf o r)) (reqOf o r).clientID = false := by
@@ -701,7 +716,7 @@ theorem validate_complete {cfg : Cfg} {e : SessionEnder} (now : Int) {o : SessOr
   exact ⟨{ UserID := uid, ClientID := scid, IDTokenHintClaims := if r.IdTokenHint != "" then cl else default, RedirectURI := loc },
     by simp only [refValidate, hI, hT, hS]⟩
 
-/-- everything an accepted request guarantees, clause by clause (no hypothesis on the SessURL parser) -/
+/-- everything an accepted request guarantees, clause by clause -/
 theorem validate_facts {cfg : Cfg} {e : SessionEnder} {now : Int} {o : SessOracles} {r : EndSessionReq} {s : EndSessionRequest}
     (hc : Configured cfg e) (h : ValidateEndSessionRequest now o r e = .ok s) :
     (reqOf o r).hint.bind (hintDefect cfg) = none ∧
@@ -710,7 +725,7 @@ theorem validate_facts {cfg : Cfg} {e : SessionEnder} {now : Int} {o : SessOracl
     s.ClientID = provenClientID (reqOf o r) (proven cfg (reqOf o r)) ∧
     ∃ target ∈ allowedTargets cfg (orcOf o) (reqOf o r) (provenClientID (reqOf o r) (proven cfg (reqOf o r))),
       (r.State = "" ∧ s.RedirectURI = target) ∨
-      (r.State ≠ "" ∧ ∃ u, o.urlParse target = .ok u ∧ s.RedirectURI = renderURL u (addParam u.query "state" r.State)) := by
+      (r.State ≠ "" ∧ ∃ u, o.urlParse target = .ok u ∧ s.RedirectURI = (withState u r.State).render) := by
   rw [validate_eq_ref] at h
   unfold refValidate at h
   split at h
@@ -756,18 +771,16 @@ theorem handle_redirect {rt : Sess.Router} {now : Int} {o : SessOracles} {rq : G
       · simp only [ht] at h
         cases rt <;> simp at h
 
-/-- C18, soundness, both routers (partial: SessURL parser drops no query pairs — see `c18_lossy_witness`):
-    every redirecting answer satisfies ALL clauses of the monitor, for the session (u, c) the storage was
-    asked to terminate; since this holds for every storage behaviour `termOK`, the storage is asked exactly
-    for the session the monitor demands. -/
-theorem c18_redirect_partial (rt : Sess.Router) {cfg : Cfg} {e : SessionEnder} {now : Int} {o : SessOracles}
+/-- C18, soundness, both routers, ALL URL-parser behaviours: every redirecting answer satisfies ALL clauses of the
+    monitor, for the session (u, c) the storage was asked to terminate; since this holds for every storage
+    behaviour `termOK`, the storage is asked exactly for the session the monitor demands. -/
+theorem c18_redirect_sound (rt : Sess.Router) {cfg : Cfg} {e : SessionEnder} {now : Int} {o : SessOracles}
     {rq : Go.R EndSessionReq} {loc : String} (hc : Configured cfg e)
-    (hloss : ∀ t u, o.urlParse t = .ok u → u.lossy = false)
     (h : Sess.handle rt now o rq e = .redirect loc) :
     ∃ u c dec, e.store.termOK u c = true ∧ ((monReq o rq).state ≠ "" → Rendered loc dec) ∧
       monitor cfg (orcOf o) (monReq o rq) (.redirect loc dec [(u, c)]) = none := by
   obtain ⟨r, s, rfl, hv, ht, rfl⟩ := handle_redirect h
-  obtain ⟨dec, hr, hm⟩ := validate_monitor hc hloss hv
+  obtain ⟨dec, hr, hm⟩ := validate_monitor hc hv
   exact ⟨s.UserID, s.ClientID, dec, ht, hr, hm⟩
 
 /-- C18 clause "redirect only to the default URI or a URI registered for the proven client", full strength -/
@@ -776,7 +789,7 @@ theorem c18_redirect_registered (rt : Sess.Router) {cfg : Cfg} {e : SessionEnder
     ∃ r, rq = .ok r ∧
       ∃ target ∈ allowedTargets cfg (orcOf o) (reqOf o r) (provenClientID (reqOf o r) (proven cfg (reqOf o r))),
         (r.State = "" ∧ loc = target) ∨
-        (r.State ≠ "" ∧ ∃ u, o.urlParse target = .ok u ∧ loc = renderURL u (addParam u.query "state" r.State)) := by
+        (r.State ≠ "" ∧ ∃ u, o.urlParse target = .ok u ∧ loc = (withState u r.State).render) := by
   obtain ⟨r, s, rfl, hv, _, rfl⟩ := handle_redirect h
   exact ⟨r, rfl, (validate_facts hc hv).2.2.2.2⟩
 
@@ -827,26 +840,46 @@ theorem c18_no_redirect_without_termination (rt : Sess.Router) {now : Int} {o : 
   obtain ⟨_, s, _, _, ht, _⟩ := handle_redirect h
   rw [hnone] at ht; simp at ht
 
-/-- C18 clause "a supplied state is appended to the final redirect unchanged": the redirect is the rendering
-    of the target's own query plus `state`; decoding that rendering (`url.ParseQuery`) gives back every pair byte
-    for byte, and the last `state` value is the one that was sent -/
-theorem c18_state_intact (now : Int) (u : SessURL) (s : String) :
-    sessMergeQueryParams now u [("state", [s])] = renderURL u (addParam u.query "state" s) ∧
-    Query.parse (Query.encode (pairBytes (flatten (addParam u.query "state" s)))) =
-      (pairBytes (flatten (addParam u.query "state" s))).map some ∧
-    (qvals (addParam u.query "state" s) "state").getLast? = some s := by
-  refine ⟨by simp [sessMergeQueryParams, flatten], Query.parse_encode _, ?_⟩
-  rw [qvals_addParam_same]; simp
+/-- the query text of the target stays as it is: the redirect's query text starts with it, whatever it contains -/
+theorem c18_query_kept (u : SessURL) (s : String) :
+    ∃ rest, (withState u s).rawQuery = u.rawQuery ++ rest ∧ (withState u s).base = u.base ∧ (withState u s).frag = u.frag
+      ∧ (withState u s).unread = u.unread := by
+  refine ⟨if u.rawQuery == "" then stateSetting s else if stateSetting s != "" then "&" ++ stateSetting s else "", ?_, rfl, rfl, rfl⟩
+  simp only [withState, joinQuery]
+  by_cases h1 : (u.rawQuery == "") = true
+  · simp only [h1, if_true]
+    rw [beq_iff_eq.mp h1]; simp
+  · by_cases h2 : (stateSetting s != "") = true
+    · simp [h1, h2, String.append_assoc]
+    · simp [h1, h2]
 
-/-! ### the finding: a query pair Go's `ParseQuery` rejects is silently dropped from the registered URI -/
-section witness
+/-- C18 clause "a supplied state is appended to the final redirect unchanged": the redirect is the rendering of the
+    target with its own query text followed by `&` and the setting `state=<escaped state>`; decoding that query text
+    (`url.ParseQuery`, on bytes, for EVERY existing query text — also one with settings the decoder rejects) gives the
+    pairs of the target's own query exactly as before, followed by the pair (`state`, the state that was sent) -/
+theorem c18_state_intact (now : Int) (u : SessURL) (s : String) (raw : List UInt8) :
+    sessMergeQueryParams now u [("state", [s])] = (withState u s).render ∧
+    (withState u s).rawQuery = joinQuery u.rawQuery (stateSetting s) ∧
+    Query.parse (raw ++ 38 :: Query.encodePair (toBytes "state", toBytes s)) = Query.parse raw ++ [some (toBytes "state", toBytes s)] ∧
+    Query.parse (Query.encodePair (toBytes "state", toBytes s)) = [some (toBytes "state", toBytes s)] ∧
+    (qvals (withState u s).query "state").getLast? = some s := by
+  have hp : Query.parse (Query.encodePair (toBytes "state", toBytes s)) = [some (toBytes "state", toBytes s)] := by
+    have := Query.parse_encode [(toBytes "state", toBytes s)]
+    simpa [Query.encode] using this
+  refine ⟨sessMerge_state now u s, rfl, ?_, hp, ?_⟩
+  · unfold Query.parse at hp ⊢
+    rw [Query.splitOn_append_any, List.filter_append, List.map_append, hp]
+  · simp only [withState]; rw [qvals_addParam_same]; simp
+
+/-! ### the input of the repaired finding F-C18a: a registered URI whose own query Go's `ParseQuery` rejects in part -/
+section formerWitness
 def wURI := "https://rp.example/lo?a=1;b=2"
 def wClient : OPClient := { id := "web", postLogoutURIs := [wURI] }
 def wCfg : Cfg := { issuer := "https://op.example", keys := {}, clients := [wClient], defaultURI := "https://op.example/out" }
-/-- what net/url answers for `wURI`: the pair `a=1;b=2` is dropped ("invalid semicolon separator"), `lossy` -/
+/-- what net/url answers for `wURI`: `ParseQuery` reads no parameter, the setting `a=1;b=2` is rejected -/
 def wOrc : SessOracles :=
   { pathMatch := fun _ _ => .ok false,
-    urlParse := fun s => if s == wURI then .ok { base := "https://rp.example/lo", query := [], lossy := true } else .error "parse",
+    urlParse := fun s => if s == wURI then .ok { base := "https://rp.example/lo", rawQuery := "a=1;b=2", query := [], unread := ["a=1;b=2"] } else .error "parse",
     tokenOf := fun _ => default }
 def wReq : EndSessionReq := { ClientID := "web", PostLogoutRedirectURI := wURI, State := "s" }
 def wEnder : SessionEnder :=
@@ -854,17 +887,26 @@ def wEnder : SessionEnder :=
 
 theorem wConfigured : Configured wCfg wEnder := ⟨rfl, rfl, rfl, rfl, rfl⟩
 
-/-- the regenerated code accepts the request and redirects to the URI WITHOUT its own query -/
-theorem c18_lossy_accepts :
-    ValidateEndSessionRequest 0 wOrc wReq wEnder =
-      .ok { UserID := "", ClientID := "web", RedirectURI := renderURL { base := "https://rp.example/lo" } [("state", ["s"])] } := by
-  rfl
+def wU : SessURL := { base := "https://rp.example/lo", rawQuery := "a=1;b=2", query := [], unread := ["a=1;b=2"] }
 
-/-- … which the monitor rejects: the full-strength theorem (without the `lossy = false` hypothesis) is false -/
-theorem c18_lossy_witness (loc : String) :
-    monitor wCfg (orcOf wOrc) (reqOf wOrc wReq) (.redirect loc (decodeOf wOrc wURI "s") [("", "web")]) = some "redirect:query-altered" := by
+/-- the regenerated code accepts the request and redirects to the URI WITH its own query, the state appended -/
+example : ValidateEndSessionRequest 0 wOrc wReq wEnder =
+    .ok { UserID := "", ClientID := "web", RedirectURI := sessMergeQueryParams 0 wU [("state", ["s"])] } := by
   rfl
-end witness
+/-- … i.e. `https://rp.example/lo?a=1;b=2&state=s`: base, `?`, the query text as registered, `&`, the state setting
+    (the compiled driver prints exactly this string for the case; the kernel does not evaluate `String` primitives) -/
+example : sessMergeQueryParams 0 wU [("state", ["s"])]
+    = "https://rp.example/lo" ++ (if false || joinQuery "a=1;b=2" (stateSetting "s") != "" then "?" ++ joinQuery "a=1;b=2" (stateSetting "s") else "") ++ "" := by
+  rw [sessMerge_state]; rfl
+
+/-- … which the monitor accepts; a redirect that lost the setting is flagged -/
+example (loc : String) : monitor wCfg (orcOf wOrc) (reqOf wOrc wReq) (.redirect loc (decodeOf wOrc wURI "s") [("", "web")]) = none := by
+  rfl
+example (loc : String) : monitor wCfg (orcOf wOrc) (reqOf wOrc wReq)
+    (.redirect loc (.ok { base := "https://rp.example/lo", rawQuery := "state=s", query := [("state", ["s"])] }) [("", "web")])
+      = some "redirect:query-altered" := by
+  rfl
+end formerWitness
 
 /-! ### non-vacuity: concrete accepted and rejected requests, on both routers -/
 section examples
